@@ -265,6 +265,7 @@ func RunScript(w *trace.W, idx int, sc Script, opts Options) error {
 	defer func() {
 		r.m.Close()
 		r.s.Quiesce(500 * time.Millisecond)
+		r.s.StopAll()
 	}()
 
 	for _, st := range sc.Steps {
